@@ -4,8 +4,11 @@ CONSTANTS
   ExplicitByCanonical = TRUE
   KeyByCanonical = TRUE
   LookupCanonical = TRUE
+  IncluderDirResolved = TRUE
+  OptDirsPhysical = TRUE
   MaxIncludes = 1000
 INVARIANT Refines
 INVARIANT OnceOnly
 INVARIANT OwnRefines
+INVARIANT ChainRefines
 CHECK_DEADLOCK TRUE
